@@ -378,3 +378,46 @@ Proof.
 Qed.
 
 End Det.
+
+(* ================================================================== with the parser *)
+
+From Knut Require Import Proofs.RoundTripLeaf Proofs.LeafProofs Proofs.KeywordProofs Proofs.SepProofs.
+
+(* the five executable statements, evaluated on ANY tree (in particular the Go parser's), imply
+   that its pieces account for every byte *)
+Theorem determined_of_specs_b letter digit t f :
+  wf_tree_b t f = true -> cover_b t f = true -> wf_leaves_b letter digit t f = true ->
+  wf_keywords_b t f = true -> wf_separators_b t f = true ->
+  determined_b letter digit t f = true /\
+  forallb (piece_ok_b Utf8M.decode letter digit t) (pieces t f) = true /\
+  concat (map (fun p => cut t (fst p)) (pieces t f)) = t.
+Proof.
+  intros H1 H2 H3 H4 H5.
+  pose proof (determined_of_specs Utf8M.decode letter digit t f H1 H2 H3 H4 H5) as Hd.
+  split; [exact Hd|]. split; [now apply pieces_ok|now apply (pieces_concat Utf8M.decode letter digit)].
+Qed.
+
+Theorem parse_text_determined letter digit t f : class_ok letter digit ->
+  parse_text letter digit t = ParseOk f ->
+  determined_b letter digit t f = true /\
+  forallb (piece_ok_b Utf8M.decode letter digit t) (pieces t f) = true /\
+  concat (map (fun p => cut t (fst p)) (pieces t f)) = t.
+Proof.
+  intros Hc Hp. apply determined_of_specs_b.
+  - exact (parse_text_wf letter digit t f Hp).
+  - exact (proj1 (parse_text_cover letter digit t f Hp)).
+  - now apply parse_text_leaves.
+  - exact (parse_text_keywords letter digit t f Hc Hp).
+  - exact (parse_text_separators letter digit t f Hc Hp).
+Qed.
+
+(* two parsed texts whose pieces have the same slices are the same text *)
+Corollary parse_text_determined_eq letter digit t f t' f' : class_ok letter digit ->
+  parse_text letter digit t = ParseOk f -> parse_text letter digit t' = ParseOk f' ->
+  map (fun p => cut t (fst p)) (pieces t f) = map (fun p => cut t' (fst p)) (pieces t' f') -> t = t'.
+Proof.
+  intros Hc Hp Hp' He.
+  destruct (parse_text_determined letter digit t f Hc Hp) as (_ & _ & H1).
+  destruct (parse_text_determined letter digit t' f' Hc Hp') as (_ & _ & H2).
+  rewrite <- H1, <- H2. now rewrite He.
+Qed.
